@@ -47,6 +47,9 @@ pub struct GenCfg {
     pub small_consts: bool,
     /// never generate an edge into the entry block
     pub no_entry_pred: bool,
+    pub min_blocks: usize,
+    /// the last block has no out-edges (a reachable block without successors is likely)
+    pub ensure_exit: bool,
 }
 
 impl GenCfg {
@@ -67,6 +70,8 @@ impl GenCfg {
             branchiness: 60,
             small_consts: false,
             no_entry_pred: false,
+            min_blocks: 1,
+            ensure_exit: false,
         }
     }
 }
@@ -267,7 +272,7 @@ pub fn guards(rng: &mut Rng, cfg: &GenCfg, k: usize) -> Vec<Option<E>> {
 
 /// A random well-formed function.  Instruction addresses are 0x1000 + 4 * running index.
 pub fn function(rng: &mut Rng, cfg: &GenCfg, address: u64) -> il::Function {
-    let nb = rng.range(1, cfg.max_blocks as u64) as usize;
+    let nb = rng.range(cfg.min_blocks.min(cfg.max_blocks) as u64, cfg.max_blocks as u64) as usize;
     let mut g = il::ControlFlowGraph::new();
     // instruction addresses are known up front so that Branch can target them
     let mut counts = Vec::new();
@@ -304,6 +309,7 @@ pub fn function(rng: &mut Rng, cfg: &GenCfg, address: u64) -> il::Function {
         } else {
             1
         };
+        let k = if cfg.ensure_exit && b + 1 == nb && nb > 1 { 0 } else { k };
         let k = k.min(nb); // distinct tails needed (the graph has no parallel edges)
         let mut tails: Vec<usize> = Vec::new();
         // bias: make block b+1 a successor so that most blocks are reachable
